@@ -105,6 +105,23 @@ claim(
     _B_NOTE,
 )
 
+claim(
+    "C23",
+    "C (simulated file system, at-rest faults)",
+    "DESIGN.md §6, §8 C23",
+    "deterministic simulation: raw/JSON picture files written by the real writer to a simulated file system, seeded at-rest fault lists, real reader and comparison tool judged against a harness-side raw decoder",
+    "Seeded search over formats (sizes, subsampling, coding modes, bit depths 1-64 incl. non-byte multiples), in-range samples, picture numbers up to 2^32-1 and explicit at-rest fault lists (sample-bit vs padding-bit flips, truncation/extension, changed metadata, missing JSON). The real file_format.write/read must round-trip; vc2-picture-compare (function and main, on files and directories) must exit 0 exactly when an independent little-endian reference decoder finds all samples and metadata equal, and report the reference's differing-pixel counts.",
+    "SimFS stands in for the disk; JSON faults keep the metadata valid JSON; behaviour for missing directories is not asserted. Sampling, not proof.",
+)
+claim(
+    "C24",
+    "C (simulated file system + baton scheduler + fresh-interpreter arm)",
+    "DESIGN.md §6, §8 C24",
+    "deterministic simulation: worker commands as baton-scheduled threads on a simulated file system under seeded scheduling policies (random, run-to-completion permutations, PCT, coarse, bursty), plus sequential fresh-interpreter runs under seeded PYTHONHASHSEEDs and command orders",
+    "Seeded search over interleavings: the worker commands the real CLI emits with --parallel run as tasks that can be pre-empted at every simulated file-system operation; a seeded policy decides who runs; the final tree must equal the real serial run's tree byte for byte and no task may raise. Every 80th run executes the same commands in fresh interpreters, sequentially in a seeded permuted order with seeded hash seeds, on a real scratch directory, and compares with the in-process serial tree. The recorded schedule (run-length list of task choices) is the replay.",
+    "Threads stand in for worker processes (sound only if the library keeps no process-global mutated state; backed by the fresh-interpreter arm). Pre-emption only at file-system operations. Natural pictures swapped for the test-suite's small ones; seven tiny codec columns (corpus/codec_features.csv). Sampling, not proof.",
+)
+
 NOT_BUILT = "check not built yet in this tree (planned: DESIGN.md §8); not claimed until it runs clean"
 
 
